@@ -187,6 +187,8 @@ func Guard(obs *core.Obs, fn func()) {
 
 type stallPanic string
 
+func (s stallPanic) Error() string { return string(s) }
+
 // SetErr records an error and the sentinels it matches.
 func SetErr(obs *core.Obs, err error, sentinels map[string]error) {
 	if err == nil {
@@ -289,6 +291,11 @@ func ExecOp(op *core.Op) *core.Obs {
 	}
 	if op.Trace {
 		obs.Events = stopTrace()
+		if stalled != "" {
+			obs.Stall, obs.Panic, obs.Err = stalled, "", ""
+			obs.Events = nil
+			stalled = ""
+		}
 	}
 	obs.Std = int(stdSize() - s0)
 	if op.Level != "" {
